@@ -134,7 +134,7 @@ PLAN["C18"] = dict(
     level="fault_enumeration",
     engines=["panic injected at every callback invocation of a dry run (native, AddressSanitizer)"],
     assumptions=["exhaustive over the injection points of each prepared map; the prepared maps are a random sample"],
-    require={"injections": 200, "injections_on_map_with_tree_bin": 20},
+    require={"injections": 200, "injections_on_map_with_tree_bin": 20, "injections_during_resize_key_bin_already_forwarded": 10},
     jobs=lambda t: [
         J("inject", "native", ["c18"], shards=8, budget_s=q(t, 25, 400)),
         J("inject-asan", "asan", ["c18"], shards=8, budget_s=q(t, 30, 400), leaks=False),
